@@ -15,6 +15,7 @@ case "${1:-}" in
     sed -i "s#path = \"/repo\"#path = \"$REPO_ALT\"#" $DST/sim/dsim/Cargo.toml $DST/miri/Cargo.toml
     sed -i "s#os.environ.get(\"REPO\", \"/repo\")#os.environ.get(\"REPO\", \"$REPO_ALT\")#" $DST/lazy/gen_shadow.py
     sed -i "s#REPO_DEFAULT = \"/repo\"#REPO_DEFAULT = \"$REPO_ALT\"#" $DST/lazy/drive.py
+    sed -i "s#REPO_DEFAULT = \"/repo\"#REPO_DEFAULT = \"$REPO_ALT\"#" $DST/tools/cross_target.py
     echo "synced"
     ;;
   try)
